@@ -247,6 +247,10 @@ class HTTP2Connection(ConnectionInterface):
         """
         end_stream = not has_body_headers(request)
 
+        # Nothing is sent for this stream until the headers have been handed
+        # to the h2 state. If that does not happen it must not be reset either.
+        self._unsent_stream_ids.add(stream_id)
+
         # The h2 package does not check outgoing methods, targets, header names
         # or header values for illegal characters. Apply the same validation as
         # for HTTP/1.1, before anything is encoded or written.
@@ -285,7 +289,6 @@ class HTTP2Connection(ConnectionInterface):
             # were given a slot. Nothing has been encoded or sent for this
             # request. It is queued again, and waits for one of the slots that
             # remain.
-            self._unsent_stream_ids.add(stream_id)
             self._request_count -= 1
             raise ConnectionNotAvailable()
         except h2.exceptions.ProtocolError:
@@ -294,9 +297,8 @@ class HTTP2Connection(ConnectionInterface):
             # encoder state, which is now ahead of what the server will see.
             # We must not encode any further requests on this connection.
             self._connection_error = True
-            # Nothing has been sent for this stream, so it must not be reset.
-            self._unsent_stream_ids.add(stream_id)
             raise
+        self._unsent_stream_ids.discard(stream_id)
         self._h2_state.increment_flow_control_window(2**24, stream_id=stream_id)
         self._write_outgoing_data(request)
 
